@@ -58,6 +58,11 @@ def discover(chk):
                     out |= own_calls(g, seen)
         return out
 
+    def free_params(f):
+        # parameters a caller has to supply: a defaulted one that no call site supplies (`threshold=0`) is a constant
+        fixed = {k[1] for k in util.unsupplied_defaults(prog, f)}
+        return [p for p in f.params() if p not in fixed]
+
     for f in meths:
         if any(isinstance(n, ast.Call) and isinstance(n.func, ast.Attribute) and n.func.attr == "add" and util.dotted(n.func.value) == "self." + released for n in ast.walk(f.node)):
             roles["release"] = f
@@ -78,12 +83,12 @@ def discover(chk):
                 continue
             direct = {n.func.attr for n in ast.walk(f.node) if isinstance(n, ast.Call) and isinstance(n.func, ast.Attribute) and util.dotted(n.func.value) == "self"}
             direct |= {n.func.id for n in ast.walk(f.node) if isinstance(n, ast.Call) and isinstance(n.func, ast.Name)}
-            if rel.name in direct and not f.params() and any(isinstance(n, ast.For) for n in ast.walk(f.node)):
+            if rel.name in direct and not free_params(f) and any(isinstance(n, ast.For) for n in ast.walk(f.node)):
                 roles["reap"] = f
         if "reap" not in roles:
             # the parameterless own method looping over the active set that the other steps call
             for f in meths:
-                if f is rel or f.params() or prog_pick_getter(f) is not None:
+                if f is rel or free_params(f) or prog_pick_getter(f) is not None:
                     continue
                 loops = [n for n in ast.walk(f.node) if isinstance(n, ast.For) and "self." + active in util.unparse(n.iter)]
                 callers = {g.name for g in meths if g is not f for c_ in ast.walk(g.node) if isinstance(c_, ast.Call) and util.dotted(c_.func) == "self." + f.name}
@@ -91,8 +96,8 @@ def discover(chk):
                     roles["reap"] = f
         reap_ = roles.get("reap")
         for f in meths:
-            if f in (rel, reap_) or not f.params():
-                continue
+            if f in (rel, reap_) or not free_params(f) or f.name + "__each" == rel.name:
+                continue  # (the bulk form of the release helper, see sa/normalise.py, is no step of its own)
             calls = own_calls(f)
             if "factory" in calls:
                 roles["grow"] = f
@@ -227,6 +232,23 @@ def release_atomic(chk, cls, active, released, roles):
     outs = Interp(prog, fi, inline=helper_inline(cls, roles)).run(env=env) if env else Interp(prog, fi, inline=helper_inline(cls, roles)).run()
     chk.count(len(outs))
     ok = True
+    # `child.demand = 0` runs the child's own setter, which may fail: the failure is the caller's to see -- a handler
+    # that swallows it files the child as released while it still holds (and is counted with) its demand
+    for fn in [fi] + [g for gs in cls.methods.values() for g in gs if helper_inline(cls, roles)(g, None)]:
+        par = util.parents_map(fn.node)
+        for st in ast.walk(fn.node):
+            if not (isinstance(st, (ast.Assign, ast.AugAssign)) and any(isinstance(t, ast.Attribute) and t.attr == "demand" and not (isinstance(t.value, ast.Name) and t.value.id == "self") for t in (st.targets if isinstance(st, ast.Assign) else [st.target]))):
+                continue
+            up, node = par.get(id(st)), st
+            while up is not None and up is not fn.node:
+                if isinstance(up, ast.Try) and node in up.body:
+                    for h in up.handlers:
+                        reraises = any(isinstance(x, ast.Raise) for x in util.walk_no_nested(h))
+                        names = [prog.resolve(fn.module, t) for t in (h.type.elts if isinstance(h.type, ast.Tuple) else [h.type])] if h.type is not None else ["ext:builtins.BaseException"]
+                        if not reraises and any(n in ("ext:builtins.Exception", "ext:builtins.BaseException") for n in names) and fn is fi:
+                            chk.bad(rule, fn.qual, "a failure of the child's demand setter in the release step is swallowed (except %s without re-raising): the child is filed as released although it still holds its demand, and the failure never surfaces" % (util.unparse(h.type) if h.type is not None else ""), node=h, stmt="release-setter-failure-swallowed")
+                            ok = False
+                node, up = up, par.get(id(up))
     for o in outs:
         if o.kind not in ("normal", "return"):
             chk.bad(rule, fi.qual, "the release step can end by %s" % o.kind, node=fi.node, stmt="exit")
@@ -279,7 +301,13 @@ def reap(chk, cls, active, released, roles):
     if len(loops) != 1:
         chk.undecided(rule, fi.qual, "reap step is not a single loop", node=fi.node)
         return
-    it_src = util.unparse(loops[0].iter)
+    it_expr = loops[0].iter
+    if isinstance(it_expr, ast.Name):
+        # a local bound once to the snapshot:  snapshot = list(self._hatchery); for child in snapshot: ...
+        binds = [v for t, v in util.simple_assignments(fi.node) if isinstance(t, ast.Name) and t.id == it_expr.id]
+        if len(binds) == 1:
+            it_expr = binds[0]
+    it_src = util.unparse(it_expr)
     if it_src == "self." + active:
         chk.bad(rule, fi.qual, "the reap step iterates the live active set while releasing from it (RuntimeError: set changed size during iteration)", node=loops[0], stmt="iterate-live-set")
     elif "self." + active not in it_src:
@@ -365,6 +393,19 @@ def guards(chk, cls, active, released, roles):
                     augs = [e for e in o.path.events if e[0] == "aug" and e[1] == mvar]
                     if not augs or augs[0][2] != "-" or not (augs[0][3][0] == "attr" and augs[0][3][2] == "demand" and augs[0][3][1][0] == "call" and augs[0][3][1][1] == ("attr", SELF, "factory")):
                         chk.bad(rule, fi.qual, "after spawning, the missing demand is not reduced by the new child's demand (%s)" % [(e[2], show(e[3])) for e in augs], node=fi.node, stmt="missing-update")
+                        ok = False
+            # two iterations: each spawn is booked with ITS OWN demand (a factory may hand out children of varying size)
+            it2 = Interp(prog, fi, unroll=2, assert_raises=False, inline=helper_inline(cls, roles))
+            for o in it2.run():
+                chk.count()
+                if len([e for e in o.path.events if e[0] == "loop-iter"]) != 2:
+                    continue
+                spawned = [e[1] for e in o.path.events if e[0] == "call" and e[1][1] == ("attr", SELF, "factory")]
+                augs = [e for e in o.path.events if e[0] == "aug" and e[1] == mvar]
+                if len(spawned) == 2 and len(augs) == 2 and ok:
+                    second = augs[1][3]
+                    if spawned[0] in list(subterms(second)) and spawned[1] not in list(subterms(second)):
+                        chk.bad(rule, fi.qual, "the second spawned child is booked with the FIRST child's demand (%s): with a factory whose children differ in size the pool over-spawns or leaves demand uncovered" % show(strip_sites(second)), node=fi.node, stmt="missing-update-remembered")
                         ok = False
             want = {("<", False), ("=", False), (">", True)}
             if seen and seen != want:
